@@ -895,6 +895,49 @@ func (c *Ctx) eachOnceRule() {
 						}
 					}
 					st, d := report.Discharged, ""
+					// every completion is kept: the message completePack hands back is appended to a list in the same iteration
+					// (a single variable that the next completion of the same read overwrites loses the earlier transfer)
+					{
+						kept := false
+						for _, ref := range *call.Referrers() {
+							ex, isEx := ref.(*ssa.Extract)
+							if !isEx || ex.Index != 0 {
+								continue
+							}
+							for _, r2 := range *ex.Referrers() {
+								stv, isSt := r2.(*ssa.Store)
+								if !isSt || stv.Val != ssa.Value(ex) {
+									continue
+								}
+								ia2, isIA := stv.Addr.(*ssa.IndexAddr)
+								if !isIA {
+									continue
+								}
+								arr, isAl := ia2.X.(*ssa.Alloc)
+								if !isAl {
+									continue
+								}
+								for _, r3 := range *arr.Referrers() {
+									sl, isSl := r3.(*ssa.Slice)
+									if !isSl {
+										continue
+									}
+									for _, r4 := range *sl.Referrers() {
+										if app, isApp := isBuiltinCall(r4, "append"); isApp && len(app.Call.Args) == 2 && app.Call.Args[1] == ssa.Value(sl) {
+											for _, l := range loops {
+												if l[b] && l[app.Block()] {
+													kept = true
+												}
+											}
+										}
+									}
+								}
+							}
+						}
+						if !kept {
+							st, d = report.Violated, "the message a completion returns is not appended to a list inside the filing loop: when two transfers complete in the same read, only one of them is delivered (the other's slot table is already removed)"
+						}
+					}
 					// the batch is the extractor's result as returned: the loop's bound is not the length of a slice the loop
 					// itself appends to (an index loop `i < len(msgs)` with `msgs = append(msgs, merged)` in its body files the
 					// merged messages again - for a "1 of 1" fragment without end)
